@@ -387,7 +387,9 @@ namespace Pistache::Tcp
         else
         {
 #endif /* PISTACHE_USE_SSL */
-            bytesWritten = ::send(fd, buffer, len, flags);
+            // MSG_NOSIGNAL: a peer that has gone away must show up as EPIPE
+            // (handled by the caller), not as a SIGPIPE that ends the process
+            bytesWritten = ::send(fd, buffer, len, flags | MSG_NOSIGNAL);
 #ifdef PISTACHE_USE_SSL
         }
 #endif /* PISTACHE_USE_SSL */
